@@ -36,7 +36,7 @@ use barter::{
     EngineEvent,
     engine::{
         Engine, EngineOutput, Processor,
-        action::ActionOutput,
+        action::{ActionOutput, cancel_orders::CancelOrders, close_positions::ClosePositions},
         audit::EngineAudit,
         command::Command,
         execution_tx::MultiExchangeTxMap,
@@ -750,6 +750,11 @@ fn judge_accessors(tb: &Table, m: &[bool], filter: &InstrumentFilter, st: &mut S
     Ok(())
 }
 
+/// Was an order with this id tracked on instrument `i` BEFORE the command (ie/ it is not a fresh close order)?
+fn cmd_known_cid(base: &St, i: usize, cid: &str) -> bool {
+    istate(base, i).orders.0.values().any(|o| o.key.cid.0.as_str() == cid)
+}
+
 fn run_probe(tb: &Table, base: &St, probe: &Probe) -> Result<ProbeOut, V> {
     let mut out = ProbeOut::default();
     let links = new_links(tb);
@@ -777,6 +782,7 @@ fn run_probe(tb: &Table, base: &St, probe: &Probe) -> Result<ProbeOut, V> {
     }
 
     let mut first_delivered = 0u64;
+    let mut first_round: Option<(Delivered, St)> = None;
     for round in 0..2 {
         let before = engine.state.clone();
         let command = if probe.close { Command::ClosePositions(filter.clone()) } else { Command::CancelOrders(filter.clone()) };
@@ -793,6 +799,7 @@ fn run_probe(tb: &Table, base: &St, probe: &Probe) -> Result<ProbeOut, V> {
         let sent = out.delivered - d0;
         if round == 0 {
             first_delivered = sent;
+            first_round = Some((dl, engine.state.clone()));
             // cells about the state the first command ran on
             let outside_actionable = (0..tb.n).any(|i| !m[i] && if probe.close { closable(istate(&before, i)) } else { cancellable(istate(&before, i)) > 0 });
             if sent > 0 && outside_actionable {
@@ -844,6 +851,60 @@ fn run_probe(tb: &Table, base: &St, probe: &Probe) -> Result<ProbeOut, V> {
         }
     }
     judge_accessors(tb, &m, &filter, &mut engine.state, &mut out)?;
+
+    // ---- direct-method round: the engine's public `CancelOrders::cancel_orders` / `ClosePositions::close_positions`
+    // (what an on-disconnect / on-trading-disabled hook holding `&mut Engine` calls) on the same state must do
+    // exactly what the command did: the same requests on the same links, the same orders marked in flight.
+    if let Some((cmd_dl, cmd_after)) = &first_round {
+        let links = new_links(tb);
+        let mut engine = engine_over(tb, base.clone(), &links);
+        catch(|| {
+            if probe.close {
+                let _ = engine.close_positions(&filter);
+            } else {
+                let _ = engine.cancel_orders(&filter);
+            }
+        })
+        .map_err(|msg| ("panic_in_engine_process", format!("direct method call: {msg}")))?;
+        let dl = drain(&links);
+        out.checks += 2;
+        let what = if probe.close { "close_positions(filter)" } else { "cancel_orders(filter)" };
+        // close orders carry fresh random ids: compare everything but the id
+        let blank = |v: &[OpenSeen]| -> Vec<OpenSeen> {
+            let mut v: Vec<OpenSeen> = v.iter().map(|o| OpenSeen { cid: String::new(), ..o.clone() }).collect();
+            v.sort();
+            v
+        };
+        if dl.cancels != cmd_dl.cancels || blank(&dl.opens) != blank(&cmd_dl.opens) {
+            return Err((
+                "direct_method_call_delivers_other_requests_than_the_command",
+                format!("{what}: delivered cancels {:?} opens {:?}; the command delivered cancels {:?} opens {:?}", dl.cancels, blank(&dl.opens), cmd_dl.cancels, blank(&cmd_dl.opens)),
+            ));
+        }
+        let orders_of = |st: &St, i: usize| -> Vec<String> {
+            let mut v: Vec<String> = istate(st, i)
+                .orders
+                .0
+                .values()
+                .map(|o| {
+                    let cid = if probe.close && matches!(o.state, ActiveOrderState::OpenInFlight(_)) && !cmd_known_cid(base, i, &o.key.cid.0) { String::new() } else { o.key.cid.0.to_string() };
+                    format!("{cid} {:?} {:?}", o.side, o.state)
+                })
+                .collect();
+            v.sort();
+            v
+        };
+        for i in 0..tb.n {
+            let (a, b) = (orders_of(&engine.state, i), orders_of(cmd_after, i));
+            if a != b {
+                return Err((
+                    "direct_method_call_leaves_other_order_state_than_the_command",
+                    format!("{what}: instrument {i} tracks {a:?} afterwards; after the command it tracked {b:?}"),
+                ));
+            }
+        }
+        out.cells.insert(if probe.close { "direct_method_round:close" } else { "direct_method_round:cancel" });
+    }
 
     // ---- dead-link round: the same command on the same state while ONE exchange's execution link is gone.
     // What cannot be delivered is reported as failed; everything on the healthy exchanges is requested exactly as
@@ -1449,6 +1510,8 @@ fn main() {
             "repeated_cancel_sends_nothing",
             "repeated_close_judged_by_same_rule",
             "dead_link_round:cancel",
+            "direct_method_round:cancel",
+            "direct_method_round:close",
             "dead_link_round:close",
             "dead_link_round:healthy_exchange_after_the_dead_one",
             "builder:cancel_all_over_builder_links",
